@@ -250,7 +250,7 @@ class ExprGen:
 
     def may_here(self):
         """Insert a may-reject construct at this point?"""
-        if self.want_may and self.p(0.25):
+        if self.want_may and self.p(0.35):
             self.tags.add("may-reject")
             return True
         return False
@@ -265,8 +265,8 @@ class ExprGen:
             return self.field("int")
         if c < 0.62:
             return self.ch(["r.d.year", "r.d.month", "r.sub.sn", "r.d.day"])
-        if c < 0.66 and self.may_here():
-            return self.ch(["-1", "-r.n", "+r.m", "~r.n", "r.nl[0]", "len(r.l)", "abs(r.n)", "int('5')", "r.n.bit_length()"])
+        if c < 0.74 and self.may_here():
+            return self.ch(["-1", "-r.n", "-r.m", "+r.m", "~r.n", "~r.u16", "r.nl[0]", "len(r.l)", "abs(r.n)", "int('5')", "r.n.bit_length()"])
         return _lit(self.ch(self.info["ints"]))
 
     def int(self, d, env):
@@ -395,8 +395,11 @@ class ExprGen:
             return "Type.%s == %s" % (self.ch(T["absent"] + T["bytes"]), self.ch(["'x'", "b'ab'"]))
         if "reverse-typematch" not in self.avoid:
             self.tags.add("reverse-typematch")
-            if self.p(0.5):
+            c2 = self.rng.random()
+            if c2 < 0.45:
                 return "Type.%s in net.ipnetwork(%s)" % (self.ch(T["ip"]), _lit(self.ch(self.info["nets"])))
+            if c2 < 0.6:   # any text value is a substring of ...
+                return "Type.%s in %s" % (self.ch(T["text"]), self.ch(["'hello world'", "'xHellox'", "r.s", "r.t", "'inner z.txt'"]))
             return "Type.%s in %s" % (self.ch(T["text"]), self.list("text", 0, env))
         return "Type.%s %s %s" % (self.ch(T["int"]), self.ch(CMP6), self.int(0, env))
 
@@ -404,7 +407,7 @@ class ExprGen:
         info = self.info
         c = self.rng.random()
         if c < 0.2:
-            return "has_field(r, %s)" % _lit(self.ch(info["text"] + info["int"] + info["missing"] + info["sometimes"]))
+            return "has_field(r, %s)" % _lit(self.ch(info["text"] + info["int"] + info["missing"] + info["sometimes"] + ["_source", "_desc"]))
         if c < 0.3:
             return "name(r) %s %s" % (self.ch(["==", "!="]), _lit(self.ch(info["names"])))
         if c < 0.4:
@@ -490,6 +493,9 @@ class ExprGen:
                                  self.list("text", min(d, 1), env) if self.p(0.6) else self.text(min(d, 1), env))
         if c < 0.48:
             return "%s %s %s" % (self.int(min(d, 1), env), self.ch(["in", "not in"]), self.list("int", min(d, 1), env))
+        if c < 0.495:
+            kind = self.ch(["int", "text"])
+            return "%s %s %s" % (self.list(kind, min(d, 1), env), self.ch(["==", "!=", "==", "<", ">="]), self.list(kind, min(d, 1), env))
         if c < 0.53:
             x = self.field("any") if self.p(0.7) else self.ch(["r._source", "r.dg.md5", "r.dg.sha1", "r.sub", "lower(None)"])
             return "%s %s" % (x, self.ch(["is None", "is not None", "== None", "!= None"]))
@@ -539,7 +545,7 @@ class ExprGen:
         self.nvar = 0
         self.done_vars = []
         self.tags = set()
-        self.want_may = self.may and self.p(0.35)
+        self.want_may = self.may and self.p(0.6)
         return self.bool(depth, {})
 
 
